@@ -295,6 +295,21 @@ def check(ctx):
                     not isinstance(n.func.value, ast.Constant) and okf:
                 if not channels.runs_after(n, cl[0], fork.node):
                     okf = False
+    if len(cl) == 1:
+        # the loop runs until the marker: its own test never ends it (and never keeps it from starting)
+        t_ = cl[0].test
+        try:
+            cv = bool(eval(compile(ast.Expression(body=t_), '<test>', 'eval'), {'__builtins__': {}}, {}))
+        except Exception:
+            cv = None
+        if cv is None:
+            walrus = isinstance(t_, ast.Compare) and isinstance(t_.left, ast.NamedExpr) and len(t_.ops) == 1 and \
+                isinstance(t_.ops[0], ast.IsNot) and isinstance(t_.comparators[0], ast.Constant) and t_.comparators[0].value is None
+            if not walrus:
+                raise AnalysisError('fork: the test of the collecting loop is neither constant nor `(row := q.get()) is not None`')
+        else:
+            run.check(cv, 'R21', where(repo, cl[0]), fork.qualname, '(f) while True: the loop ends at the marker only',
+                      'the loop that hands the processed rows downstream never runs: every selected row is lost')
     run.check(okf, 'R21', fork.where, fork.qualname, '(f) yield until the marker; joins only after the stream is drained',
               'the consumer stops before the marker, drops rows, or waits for its helpers before draining their output')
     # ---- lazy start: rows before the first selected row are yielded directly; the first selected row is pushed back
